@@ -193,6 +193,13 @@ static void randomCase(Rng &rng, CaseResult &r, bool cascade = false) {
   }
   (void)mode;
   try {
+    if (rng.chance(0.1)) {
+      // a warm start with the wrong shape is refused; the object is solved afterwards all the same
+      std::vector<std::vector<ll>> bad((size_t)K + (rng.chance(0.3) ? 1 : 0), std::vector<ll>((size_t)std::max(0, S + (int)rng.range(-1, 1)), 0));
+      if ((int)bad.size() == K && (bad.empty() || (int)bad[0].size() == S)) bad[0].push_back(0);
+      if (rng.chance(0.7)) { try { pb.setAllocations(bad); } catch (const std::exception &) { r.count("warm_starts_refused"); } }
+      else { std::vector<int> badAs((size_t)S + 1, K + 3); try { pb.setAssignment(badAs); } catch (const std::exception &) { r.count("warm_starts_refused"); } }
+    }
     TransportationProblem untouched = pb;
     pb.solve();
     checkSolved(pb, dem, S <= 3 && K <= 3 && maxv <= 20, what, r);
